@@ -314,8 +314,32 @@ Check C15_convert_keeps_target_toplevel :
       same_file t' (Cur :: t) = true.
 
 
+
+(** a target source/alias whose value is exactly the resolved file (also a module-folder file): the
+    alias name alone is written, nothing is popped, the file is found again *)
+Theorem C15_convert_keeps_target_file_alias : forall (tgt : config) (rcs : rc_files) (f : fs) (src t : path) (name : bytes),
+    simple t = true -> t <> [] ->
+    best_alias (project_location tgt src) t (c_sources tgt) None = Some (name, t) ->
+    wf_name name = true ->
+    is_module_folder_name tgt [Norm name] = false -> is_lua_ext (name_ext name) = false ->
+    head_path tgt (rc_aliases tgt rcs src) src [Norm name] = inl t ->
+    is_file f t = true ->
+    generate_require tgt src t = name /\
+    find_require tgt rcs f src (generate_require tgt src t) = Found t.
+Proof. exact convert_keeps_target_file_alias. Qed.
+Print Assumptions C15_convert_keeps_target_file_alias.
+Check C15_convert_keeps_target_file_alias : forall (tgt : config) (rcs : rc_files) (f : fs) (src t : path) (name : bytes),
+    simple t = true -> t <> [] ->
+    best_alias (project_location tgt src) t (c_sources tgt) None = Some (name, t) ->
+    wf_name name = true ->
+    is_module_folder_name tgt [Norm name] = false -> is_lua_ext (name_ext name) = false ->
+    head_path tgt (rc_aliases tgt rcs src) src [Norm name] = inl t ->
+    is_file f t = true ->
+    generate_require tgt src t = name /\
+    find_require tgt rcs f src (generate_require tgt src t) = Found t.
+
 (** bounded complement (aliases, custom module folder name, absolute targets; 6 configuration pairs x
-    128 file subsets x 6 requiring files x 33 require strings, by evaluation) *)
+    128 file subsets x 6 requiring files x 35 require strings, by evaluation) *)
 Theorem C15_convert_keeps_target_bounded :
   forall cur tgt mask src lit t,
     In (cur, tgt) bounded_pairs -> In mask bounded_masks -> In src bounded_sources -> In lit bounded_literals ->
